@@ -382,7 +382,20 @@ def getitem(arr, key):
             plan.append(("off", lo))
             shape.append(ln)
         elif isinstance(k, SArr) and k.dtype == "int" and k.ndim == 1:
-            plan.append(("fancy", k.copy()))
+            kc = k.copy()
+            cc = sym.ctx()
+            if not cc.spec_mode and getattr(cc, "bound_depth", 0) == 0:
+                # every index of a fancy index array must be in bounds (IndexError otherwise); negative indices are
+                # not modelled, so 0 <= k[q] < n is the obligation
+                q = z3.Int(cc.fresh_name("qf"))
+                cc.bound_depth = 1
+                try:
+                    kq = lift(kc.fn(Sym(q)))
+                finally:
+                    cc.bound_depth = 0
+                cc.oblige_safe("fancy-index-in-bounds", z3.ForAll([q], z3.Implies(z3.And(q >= 0, q < lift(kc.shape[0])),
+                                                                                  z3.And(kq >= 0, kq < lift(n)))))
+            plan.append(("fancy", kc))
             shape.append(k.shape[0])
         elif isinstance(k, (np.ndarray, list)) and not deep_sym(k):
             kk = np.asarray(k)
@@ -1593,7 +1606,19 @@ def np_cumsum(interp, a, *args, **kw):
     c.assume(z3.And(sumtheory.SUM(A, 0) == 0,
                     z3.ForAll([q], z3.Implies(z3.And(q >= 0, q < lift(a.shape[0])),
                                               sumtheory.SUM(A, q + 1) == sumtheory.SUM(A, q) + A[q]))))
-    return SArr(a.shape, lambda k: Sym(sumtheory.SUM(A, z3.simplify(lift(k) + 1))), "real")
+    n_ = lift(a.shape[0])
+
+    def at(k):
+        kk = lift(k)
+        if getattr(c, "bound_depth", 0) == 0 and sym.ctx() is c:
+            # the defining equation of the running sum at the position that is looked at (and at 0): the quantified
+            # recurrence above is rarely instantiated by the solver when the array is a lambda term
+            for pos in (kk, z3.IntVal(0)):
+                ap = z3.substitute_vars(A.body(), pos) if z3.is_quantifier(A) and A.is_lambda() else A[pos]
+                c.pc.append(z3.Implies(z3.And(pos >= 0, pos < n_),
+                                       sumtheory.SUM(A, z3.simplify(pos + 1)) == sumtheory.SUM(A, pos) + ap))
+        return Sym(sumtheory.SUM(A, z3.simplify(kk + 1)))
+    return SArr(a.shape, at, "real")
 
 
 def _hstack_general(interp, parts):
